@@ -229,6 +229,24 @@ func parseTexts(trees []Tree, tier string) []string {
 		}
 	}
 	out = append(out, lexTexts(os.Getenv("VERIF_LEXROWS"))...)
+	out = append(out, docTexts(os.Getenv("VERIF_DOCROWS"))...)
+	return out
+}
+
+// docTexts: the document universe of Gen_Doc (base documents and their structural mutations: mixed dimensions, holes,
+// foreign members, nesting), plain spelling
+func docTexts(path string) []string {
+	if path == "" {
+		return nil
+	}
+	rows, err := loadDocs(path)
+	if err != nil {
+		return nil
+	}
+	var out []string
+	for _, r := range rows {
+		out = append(out, r.ast.Text(renderOpts{table: tokenTables[0]}))
+	}
 	return out
 }
 
@@ -364,6 +382,13 @@ func c05worker(args []string) error {
 				o, err := geojson.Parse(c.text, &po)
 				res["obj"] = o != nil
 				res["err"] = err != nil
+				if o != nil && err == nil { // "any object obtained from Parse": every unary method on it
+					for _, m := range unaryMethods {
+						res["m"] = "Parse, then " + m
+						runUnary(m, o)
+					}
+					delete(res, "m")
+				}
 			}
 		}()
 		b, _ := json.Marshal(res)
